@@ -68,6 +68,10 @@ def drivers(tier, seed):
                     for cap in ([0, 160] if tier == "quick" else [0, 100, 160, 300]):
                         atts.append({"variant": variant, "cap": cap, "reserved": res, "kind": "opt", "magic": 5, "minseg": 8,
                                      "create": False, "create_new": False})
+                # a read-only open strips the caller's write-side flags: an Options value that still says truncate(true)
+                for variant in ["map", "map_copy_ro"]:
+                    atts.append({"variant": variant, "cap": 0, "reserved": res, "kind": "opt", "magic": 5, "minseg": 8,
+                                 "create": False, "create_new": False, "truncate": True})
                 # expectations that differ from the file
                 atts.append({"variant": "map_mut", "cap": 0, "reserved": res, "kind": "pes", "magic": 5, "minseg": 8, "create": False, "create_new": False})
                 atts.append({"variant": "map_mut", "cap": 0, "reserved": res, "kind": "opt", "magic": 6, "minseg": 8, "create": False, "create_new": False})
